@@ -501,7 +501,9 @@ def wl_live(ctx, rng):
         model[victim] = v
         writes.append((victim, v))
         spec = dict(spec, gases=[dict(g, mix=v) if g['mol'] == victim else g for g in spec['gases']])
-        if rng.random() < 0.5:
+        forced = ctx.case['index'] % 4 == 1 and rnd == 0     # every fourth case on purpose: temperature written, the evaluation
+        #                                                        after it rejected inside the chemistry, then evaluated
+        if rng.random() < 0.5 or forced:
             # the temperature is written as well (a retrieval moves both); cross-sections have to follow it
             tn = [n for n, t in model.fittingParameters.items()
                   if (n == 'T' or n in ('T_irr', 'T_surface', 'T_top') or n.startswith('T_point')) and isinstance(t[2](), float)]
@@ -524,8 +526,8 @@ def wl_live(ctx, rng):
                 spec = dict(spec, interpolation=new_mode)
                 ops.update(world.install_opacities(spec0))
                 ctx.observe('live:interpolation-mode-switched-between-evaluations')
-        if rng.random() < 0.45:
-            site = faults.drive_into(ctx, rng, model.model)      # a rejected evaluation between write and evaluation
+        if rng.random() < 0.45 or forced:
+            site = faults.drive_into(ctx, rng, model.model, **({'sites': ['chemistry'], 'kmax': 1} if forced else {}))      # a rejected evaluation between write and evaluation
             if site == 'rejected':
                 return
             if site:
